@@ -20,7 +20,9 @@ TableOfJson(t) == [k |-> t.k, rc |-> t.rc, names |-> t.names, rows |-> ToSet(t.r
 RefOK(e) ==
    LET c == e.ctx
        idx == RefIndex(c.contigs, c.k, c.rc)
-   IN /\ e.panic = ""
+   IN IF idx = <<>> THEN e.panic # ""           \* a reference without any valid window is refused
+      ELSE
+      /\ e.panic = ""
       /\ Len(e.index) = Len(idx)
       /\ \A i \in 1..Len(idx) :
             e.index[i] = <<idx[i].km, idx[i].mid, idx[i].pos, idx[i].chrom, idx[i].isrc>>
